@@ -79,6 +79,7 @@ func generate(cfg *hx.Config) []hx.Case {
 		cfg.Count("mode=" + mode)
 		for _, e := range exs {
 			cfg.Count("outcome=" + e.Outcome)
+			cfg.Count("method=" + methodName(e.Meth))
 			if e.Outcome == "cut" {
 				switch {
 				case e.K < len(e.head()):
@@ -164,6 +165,34 @@ func generate(cfg *hx.Config) []hx.Case {
 			}
 		}
 	}
+	// every dial outcome, for CONNECT (no MITM) and for plain requests, each
+	// followed by a good exchange on the same client connection
+	for rep := 0; rep < reps; rep++ {
+		for _, oc := range []string{"ref", "tmo", "dns"} {
+			for _, m := range []byte{'C', 'G', 'P', 'H'} {
+				r := rng.Fork()
+				f := &exch{ID: id(r), Meth: m, Outcome: oc, Status: 200, Framing: "c", BodyLen: 4}
+				if m == 'H' {
+					f.Framing = "n"
+				}
+				add("dial", pick(r, "seq", "pipe"), f, okEx(id(r), 'G', "c", 6, nil))
+				add("dial", "seq", okEx(id(r), 'G', "k", 6, []int{2}), f, f, okEx(id(r), 'P', "c", 6, nil))
+				if m != 'C' {
+					f2 := *f
+					f2.RC = true
+					add("dial", "seq", &f2, okEx(id(r), 'G', "c", 6, nil))
+					f3 := *f
+					f3.V10 = true
+					add("dial", "seq", &f3, okEx(id(r), 'G', "c", 6, nil))
+				}
+			}
+		}
+		// CONNECT whose dial succeeds: 200 through the modifier, then a blind tunnel
+		r := rng.Fork()
+		add("dial", "seq", &exch{ID: id(r), Meth: 'C', Outcome: "ok", Status: 200, Framing: "c", BodyLen: 9})
+		add("dial", "seq", okEx(id(r), 'G', "c", 3, nil), &exch{ID: id(r), Meth: 'C', Outcome: "tmo", Status: 200, Framing: "c", BodyLen: 4},
+			&exch{ID: id(r), Meth: 'C', Outcome: "ok", Status: 200, Framing: "k", BodyLen: 9, Sizes: []int{4}}, okEx(id(r), 'G', "c", 3, nil))
+	}
 	// random mixtures
 	nr := 60
 	if cfg.Thorough() {
@@ -189,7 +218,10 @@ func generate(cfg *hx.Config) []hx.Case {
 			}
 			switch r.Intn(6) {
 			case 0:
-				e.Outcome = "ref"
+				e.Outcome = pick(r, "ref", "tmo", "dns")
+				if r.Chance(1, 3) {
+					e.Meth, e.Framing = 'C', "c"
+				}
 			case 1:
 				e.Outcome, e.K = "gar", r.Intn(len(garbage))
 			case 2, 3:
@@ -205,6 +237,9 @@ func generate(cfg *hx.Config) []hx.Case {
 			}
 			e.RC = r.Chance(1, 10)
 			e.V10 = r.Chance(1, 10)
+			if e.Meth == 'C' {
+				e.RC, e.V10 = false, false
+			}
 			exs = append(exs, e)
 		}
 		add("mix", pick(r, "seq", "seq", "pipe"), exs...)
@@ -308,6 +343,14 @@ func corpus() []hx.Case {
 	h2.K = len(d2.head())
 	add("cut-exactly-after-head", "seq", &h2, okEx(6, 'G', "c", 5, nil))
 	add("dial-refused-then-ok", "seq", &exch{ID: 7, Meth: 'G', Outcome: "ref", Status: 200, Framing: "c", BodyLen: 4}, okEx(8, 'G', "c", 5, nil))
+	for _, oc := range []string{"ref", "tmo", "dns"} {
+		add("connect-dial-"+oc+"-then-get", "seq", &exch{ID: 11, Meth: 'C', Outcome: oc, Status: 200, Framing: "c", BodyLen: 4}, okEx(12, 'G', "c", 5, nil))
+	}
+	add("get-dial-timeout-then-get", "seq", &exch{ID: 13, Meth: 'G', Outcome: "tmo", Status: 200, Framing: "c", BodyLen: 4}, okEx(12, 'G', "c", 5, nil))
+	add("connect-ok-tunnel", "seq", okEx(14, 'G', "c", 3, nil), &exch{ID: 15, Meth: 'C', Outcome: "ok", Status: 200, Framing: "c", BodyLen: 9})
+	for g := 10; g < len(garbage); g++ {
+		add(fmt.Sprintf("garbage-echoed-into-warning-%d", g), "seq", &exch{ID: 16, Meth: 'G', Outcome: "gar", K: g, Status: 200, Framing: "c", BodyLen: 4}, okEx(17, 'G', "c", 5, nil))
+	}
 	add("garbage-then-ok", "seq", &exch{ID: 9, Meth: 'P', Outcome: "gar", K: 1, Status: 200, Framing: "c", BodyLen: 4}, okEx(8, 'G', "k", 5, []int{5}))
 	return cs
 }
